@@ -543,7 +543,14 @@ func callSSA(i *interpreter, caller *frame, callpos token.Pos, fn *ssa.Function,
 				return call(i, caller, callpos, rep, args)
 			}
 		}
-		if ext := externals[name]; ext != nil {
+		ext := externals[name]
+		if ext == nil {
+			// an instance of a generic function: externals are registered under the generic's name
+			if o := fn.Origin(); o != nil && o != fn {
+				ext = externals[o.String()]
+			}
+		}
+		if ext != nil {
 			if i.mode&EnableTracing != 0 {
 				fmt.Fprintln(os.Stderr, "\t(external)")
 			}
